@@ -19,6 +19,7 @@ N_all == CatNames
 N_mid == {"m", "cm", "km", "nm", "kg", "g", "s", "ms", "min", "h", "A", "mA", "K", "mol", "mmol", "umol",
           "molar", "millimolar", "micromolar", "litre", "dm3", "J", "kilojoule", "bar", "Pa", "eV", "per100eV", "V", "C"}
 N_small == {"m", "cm", "km", "kg", "g", "s", "min", "h", "mol", "mmol", "molar", "K", "mA"}
+N_q7 == {"m", "km", "s", "h", "mol", "mmol", "g"}
 N_tiny == {"m", "km", "s", "h", "mol", "mmol"}
 N_dimless == {"m", "km", "s", "min", "mol", "umol", "K"}
 N_base == {"m", "kg", "s", "A", "K", "mol"}
@@ -44,6 +45,8 @@ H_all == AllHelpers
 Plan_conv1 == <<{"convert", "incompatible"}>>
 Plan_hist3 == <<{"convert", "via", "scale", "incompatible"}, {"convert", "scale", "container", "via"},
                 {"back", "container", "convert", "incompatible"}>>
+Plan_hist3q == <<{"convert", "via", "scale"}, {"scale", "container", "via"}, {"back", "container", "incompatible"}>>
+Plan_hist3t == <<{"convert", "via", "scale"}, {"scale", "convert", "via"}, {"back", "container", "incompatible"}>>
 Plan_hist2 == <<{"convert", "via", "scale"}, {"back", "container", "incompatible"}>>
 Plan_reg == <<{"dimensionality", "defunit", "unitless"}>>
 Plan_derived == <<{"derived", "roundtrip"}>>
@@ -57,6 +60,6 @@ Plan_inv == <<{"convert", "via", "scale", "incompatible", "container", "dimensio
               {"convert", "back", "scale", "helper", "bexp", "derived", "roundtrip"}>>
 
 \* the catalog, the derived-unit keys and the registries for the seeded generator of the binding layer
-EmitCatalog == PrintT(<<"CASE", ToJson([in |-> [x |-> 0], cls |-> "catalog",
+EmitCatalog == (stage = "build") => PrintT(<<"CASE", ToJson([in |-> [x |-> 0], cls |-> "catalog",
                  exp |-> [cat |-> Cat, keys |-> SetToSeq(AllKeys), regs |-> SetToSeq(Regs108 \cup RegsOwn)]])>>)
 =============================================================================
